@@ -1,8 +1,8 @@
 (** C01 — property theorems only.  Each is closed by [exact] of a lemma of Proofs*.v / Refuted.v and
     followed by [Print Assumptions]. *)
 From V Require Import Base.Util Gql.Ast Writer.Wop Ts.TsType Ts.TsDen
-     C01.Model C01.Spec C01.Corr C01.Witness C01.Proofs C01.Refuted C01.TsLemmas C01.TreeDen C01.EnvDen
-     C01.PlainBase C01.PlainCore C01.PlainSchema C01.PlainFinal.
+     C01.Model C01.Spec C01.Guards C01.Corr C01.Witness C01.Proofs C01.Refuted C01.TsLemmas C01.TreeDen C01.EnvDen
+     C01.PlainBase C01.PlainCore C01.PlainSchema C01.PlainFinal C01.FlatCore C01.FlatThm C01.FlatFinal.
 
 (** Execute_spec ⊆ Ref_local: for every schema, fragment list, assignment of the boolean variables,
     parent type, selection set and value (spec side only; unbounded) *)
@@ -82,3 +82,42 @@ Theorem C01_partial_guards_satisfiable :
             exec_b w_schema [] 8 [(s "v", false); (s "w", false)] 8 (s "Query") (sels_of w_plain) v = true.
 Proof. exact plain_guards_satisfiable. Qed.
 Print Assumptions C01_partial_guards_satisfiable.
+
+(** emit_eq_ref_local for MERGE-FREE definitions: inline fragments (with and without type condition)
+    and fragment spreads over objects / interfaces / unions are allowed; [guard_merge_free] (C01/Guards.v,
+    computable, evaluated by Corr.agree on every generated definition) asks that fragment names are
+    unique and, per object type of the parent and recursively in sub-selections, that the flattened scope
+    has pairwise distinct response keys (so deep_merge never merges), no alias of/named __typename, and
+    no fragment spread twice. *)
+Theorem C01_emit_eq_ref_local_merge_free : forall S D d T sels t v,
+  nodup_types S = true ->
+  def_target S d = Some (T, sels) ->
+  guard_merge_free S D d = true ->
+  emit_type default_options S D d = Ok t ->
+  (forall tree, def_tree S D d = Ok tree -> tree_ok S tree = true) ->
+  json v = true ->
+  (In_type (schema_env S) t v <-> exists f, ref_local_b S (sp_frags D) (doc_fuel D) f T sels v = true).
+Proof. exact emit_eq_ref_local_merge_free. Qed.
+Print Assumptions C01_emit_eq_ref_local_merge_free.
+
+Theorem C01_response_admitted_merge_free : forall S D d T sels t sg f v,
+  nodup_types S = true -> def_target S d = Some (T, sels) -> guard_merge_free S D d = true ->
+  emit_type default_options S D d = Ok t ->
+  (forall tree, def_tree S D d = Ok tree -> tree_ok S tree = true) ->
+  json v = true ->
+  exec_b S (sp_frags D) (doc_fuel D) sg f T sels v = true ->
+  In_type (schema_env S) t v.
+Proof. exact response_admitted_merge_free. Qed.
+Print Assumptions C01_response_admitted_merge_free.
+
+(** non-vacuity: a non-plain document (union parent, inline fragments on an object and on an
+    interface, a fragment spread, variable conditions on fragments) satisfies the guard *)
+Theorem C01_merge_free_guards_satisfiable :
+  nodup_types w_schema = true /\
+  guard_merge_free w_schema w_frag (first_def w_frag) = true /\
+  plain_list (sels_of w_frag) = false /\
+  (exists tree, def_tree w_schema w_frag (first_def w_frag) = Ok tree /\ tree_ok w_schema tree = true) /\
+  exists v, json v = true /\
+            exec_b w_schema (sp_frags w_frag) 8 [(s "v", true); (s "w", false)] 8 (s "Query") (sels_of w_frag) v = true.
+Proof. exact merge_free_guards_satisfiable. Qed.
+Print Assumptions C01_merge_free_guards_satisfiable.
